@@ -299,6 +299,8 @@ func (w *World) prelude() string {
 	b.WriteString(`(define-fun nn ((x Int)) Int (ite (>= x 0) x 0))
 (define-fun tdiv ((a Int) (b Int)) Int (ite (>= a 0) (ite (> b 0) (div a b) (- (div a (- b)))) (ite (> b 0) (- (div (- a) b)) (div (- a) (- b)))))
 (define-fun tmod ((a Int) (b Int)) Int (- a (* b (tdiv a b))))
+(declare-fun at (Int Int) Int)
+(assert (forall ((o Int) (i Int)) (! (= (at o i) (+ o i)) :pattern ((at o i)))))
 (declare-fun msum ((Array Int Bool) (Array Int Int)) Int)
 (declare-fun msumR ((Array Int Bool) (Array Int Int) (Array Int Bool)) Int)
 (declare-fun lsum (Int Int (Array Int Int)) Int)
@@ -342,6 +344,8 @@ type State struct {
 	dead    bool
 	writes  map[string][]wr // heap component -> locations written since function entry
 	inlined map[*ast.CallExpr][]Val // results of calls that were executed inline
+	seen    map[string]bool         // assumptions already on the path
+	names   map[string]string       // named sub-terms (heap reads)
 }
 
 // wr records a write into a heap component at reference ref ("*" = anywhere) under guard.
@@ -382,6 +386,18 @@ func (s *State) fork() *State {
 			n.writes[k] = v
 		}
 	}
+	if s.seen != nil {
+		n.seen = make(map[string]bool, len(s.seen))
+		for k := range s.seen {
+			n.seen[k] = true
+		}
+	}
+	if s.names != nil {
+		n.names = make(map[string]string, len(s.names))
+		for k, v := range s.names {
+			n.names[k] = v
+		}
+	}
 	if s.inlined != nil {
 		n.inlined = make(map[*ast.CallExpr][]Val, len(s.inlined))
 		for k, v := range s.inlined {
@@ -404,7 +420,15 @@ func (s *State) assume(f string) {
 	if f == "true" || f == "" {
 		return
 	}
-	s.pc = append(s.pc, implies(s.guard(), f))
+	f = implies(s.guard(), f)
+	if s.seen == nil {
+		s.seen = map[string]bool{}
+	}
+	if s.seen[f] {
+		return
+	}
+	s.seen[f] = true
+	s.pc = append(s.pc, f)
 }
 
 func (s *State) note(t string) { s.trail = append(s.trail, t) }
